@@ -15,8 +15,9 @@ def main():
     i = a.index('--tier'); tier = a[i + 1]; del a[i:i + 2]
   d = tempfile.mkdtemp(prefix='vfmut.')
   try:
-    shutil.copytree('/repo/openhtf', os.path.join(d, 'openhtf'), ignore=shutil.ignore_patterns('__pycache__', 'node_modules', 'web_gui'))
-    shutil.copytree('/repo/docs', os.path.join(d, 'docs'))
+    src = os.environ.get('VF_REPO_SRC', '/repo')       # a frozen copy of /repo for long regressions
+    shutil.copytree(os.path.join(src, 'openhtf'), os.path.join(d, 'openhtf'), ignore=shutil.ignore_patterns('__pycache__', 'node_modules', 'web_gui'))
+    shutil.copytree(os.path.join(src, 'docs'), os.path.join(d, 'docs'))
     if a[0] == '--patch':
       subprocess.check_call(['git', 'apply', '--unsafe-paths', '--directory=' + d, os.path.abspath(a[1])], cwd=d)
     else:
@@ -29,7 +30,7 @@ def main():
           print('MUTANT-ERROR: %d occurrences of %r in %s' % (n, old, f)); return 3
         open(p, 'w').write(s.replace(old, new))
     env = dict(os.environ, VERIF_REPO=d, VERIF_MAX_WALL_S=os.environ.get('VERIF_MAX_WALL_S', '600'))
-    r = subprocess.run(['/verif/check', pid, '--tier', tier, '--no-evidence'], env=env, stdout=subprocess.PIPE, stderr=subprocess.STDOUT, text=True)
+    r = subprocess.run([os.path.join(os.path.dirname(os.path.dirname(os.path.abspath(__file__))), 'check'), pid, '--tier', tier, '--no-evidence'], env=env, stdout=subprocess.PIPE, stderr=subprocess.STDOUT, text=True)
     lines = [l for l in r.stdout.splitlines() if 'conda' not in l]
     print('\n'.join(lines[-12:]))
     print('exit', r.returncode, 'CAUGHT' if r.returncode == 1 else ('MISSED' if r.returncode == 0 else 'ERROR'))
